@@ -89,47 +89,47 @@ theorem image_data_encodable {d : B} {p : Nat} {i : ImageData} {p' : Nat} (hd : 
 the length field it goes into (`v.LenFits`: the re-encoded image-resources body, a record's blending-ranges / extra
 block, a channel length, the layer info, the section). No field read from the file can make the writer raise, and
 the `IndexError` of `("I", "Q")[version - 1]` is impossible. -/
-theorem dec_encodable (b : B) (v : PSD) (p : Nat) (h : PSD.read b 0 = .ok (v, p)) (hlen : v.LenFits 4) :
-    ∃ bs, PSD.enc 4 v = .ok bs :=
+theorem dec_encodable (pad : Nat) (b : B) (v : PSD) (p : Nat) (h : PSD.read b 0 = .ok (v, p)) (hlen : v.LenFits pad) :
+    ∃ bs, PSD.enc pad v = .ok bs :=
   ⟨_, (PSD.read_ok h).1.enc_ok hlen⟩
 
 /-- `LenFits` is not only sufficient but exactly what is missing: a decoded value is writable iff it holds -/
-theorem dec_encodable_iff (b : B) (v : PSD) (p : Nat) (h : PSD.read b 0 = .ok (v, p)) :
-    (∃ bs, PSD.enc 4 v = .ok bs) ↔ v.LenFits 4 := by
+theorem dec_encodable_iff (pad : Nat) (b : B) (v : PSD) (p : Nat) (h : PSD.read b 0 = .ok (v, p)) :
+    (∃ bs, PSD.enc pad v = .ok bs) ↔ v.LenFits pad := by
   constructor
   · rintro ⟨bs, hbs⟩
     obtain ⟨f1, f2⟩ := PSD.fits_of_enc hbs
     exact PSD.lenFits_of_fits f1 f2
-  · exact dec_encodable b v p h
+  · exact dec_encodable pad b v p h
 
 /-! ### whatever is read and written is well formed -/
 
-theorem dec_wf_partial (b : B) (v : PSD) (p : Nat) (s : B) (h : PSD.read b 0 = .ok (v, p)) (hs : PSD.enc 4 v = .ok s)
-    (hst : v.Stable) : v.WF 4 := by
+theorem dec_wf_partial (pad : Nat) (b : B) (v : PSD) (p : Nat) (s : B) (h : PSD.read b 0 = .ok (v, p)) (hs : PSD.enc pad v = .ok s)
+    (hst : v.Stable) : v.WF pad := by
   obtain ⟨f1, f2⟩ := PSD.fits_of_enc hs
   exact (PSD.read_ok h).1.wf f1 f2 hst
 
 /-- The property, for every accepted byte string whose layer masks are not the one unstable shape:
 saving what was read gives `s`; `s` is accepted, read to the end, and gives the structure that was saved (as the
 writer left it); saving that again reproduces `s` byte for byte. -/
-theorem resave_stable_partial (b : B) (v : PSD) (p : Nat) (s : B) (h : PSD.read b 0 = .ok (v, p))
-    (hs : PSD.enc 4 v = .ok s) (hst : v.Stable) :
-    PSD.read s 0 = .ok (normalise v, s.length) ∧ PSD.enc 4 (normalise v) = .ok s := by
-  have hwf := dec_wf_partial b v p s h hs hst
-  exact ⟨C01.psd_roundtrip 4 v hwf s hs, by rw [normalise, PSD.enc_refresh, hs]⟩
+theorem resave_stable_partial (pad : Nat) (b : B) (v : PSD) (p : Nat) (s : B) (h : PSD.read b 0 = .ok (v, p))
+    (hs : PSD.enc pad v = .ok s) (hst : v.Stable) :
+    PSD.read s 0 = .ok (normalise v, s.length) ∧ PSD.enc pad (normalise v) = .ok s := by
+  have hwf := dec_wf_partial pad b v p s h hs hst
+  exact ⟨C01.psd_roundtrip pad v hwf s hs, by rw [normalise, PSD.enc_refresh, hs]⟩
 
 /-- the second save reproduces the first byte for byte, whatever the re-read returned -/
-theorem second_save_identical (b : B) (v : PSD) (p : Nat) (s : B) (h : PSD.read b 0 = .ok (v, p))
-    (hs : PSD.enc 4 v = .ok s) (hst : v.Stable) (v' : PSD) (n : Nat) (hr : PSD.read s 0 = .ok (v', n)) :
-    PSD.enc 4 v' = .ok s :=
-  C01.psd_rewrite_identical 4 v (dec_wf_partial b v p s h hs hst) s hs v' n hr
+theorem second_save_identical (pad : Nat) (b : B) (v : PSD) (p : Nat) (s : B) (h : PSD.read b 0 = .ok (v, p))
+    (hs : PSD.enc pad v = .ok s) (hst : v.Stable) (v' : PSD) (n : Nat) (hr : PSD.read s 0 = .ok (v', n)) :
+    PSD.enc pad v' = .ok s :=
+  C01.psd_rewrite_identical pad v (dec_wf_partial pad b v p s h hs hst) s hs v' n hr
 
 /-- a file that was read and saved once is a fixed point: reading the saved bytes gives a value that is already
 normalised, stable, and is re-read as itself -/
-theorem resaved_is_fixed_point (b : B) (v : PSD) (p : Nat) (s : B) (h : PSD.read b 0 = .ok (v, p))
-    (hs : PSD.enc 4 v = .ok s) (hst : v.Stable) :
+theorem resaved_is_fixed_point (pad : Nat) (b : B) (v : PSD) (p : Nat) (s : B) (h : PSD.read b 0 = .ok (v, p))
+    (hs : PSD.enc pad v = .ok s) (hst : v.Stable) :
     normalise (normalise v) = normalise v ∧
-    ∀ s', PSD.enc 4 (normalise v) = .ok s' → s' = s := by
+    ∀ s', PSD.enc pad (normalise v) = .ok s' → s' = s := by
   refine ⟨?_, ?_⟩
   · unfold normalise
     rw [PSD.refresh_eq, PSD.refresh_eq]
@@ -290,9 +290,9 @@ example : ∃ s, PSD.enc 4 Samples.enlargedRead = .ok s ∧ s.length + 4 = Sampl
     PSD.read s 0 = .ok (normalise Samples.enlargedRead, s.length) ∧ PSD.enc 4 (normalise Samples.enlargedRead) = .ok s :=
   have h := enlarged_layer_info_accepted
   ⟨_, h.2.2.2, by decide +kernel,
-    resave_stable_partial _ _ _ _ h.1 h.2.2.2 h.2.2.1⟩
+    resave_stable_partial 4 _ _ _ _ h.1 h.2.2.2 h.2.2.1⟩
 
 example : ∃ bs, PSD.enc 4 Samples.enlargedRead = .ok bs :=
-  dec_encodable _ _ _ enlarged_layer_info_accepted.1 (by decide +kernel)
+  dec_encodable 4 _ _ _ enlarged_layer_info_accepted.1 (by decide +kernel)
 
 end PsdVerif.C02
